@@ -310,6 +310,11 @@ fn judge_table(printed: &Printed, img: &Image, stack: bool) -> Option<(String, S
             }
         }
     }
+    if rows.is_empty() {
+        // the table's drawing is presentation: if no row can be recognised at all, the layout is
+        // not the one this reader knows and nothing is judged (counted by the missing gate)
+        return None;
+    }
     for a in addrs {
         let want = if a < orig + n {
             let item = img.item_of_word[(a - orig) as usize];
